@@ -79,17 +79,19 @@ Proof.
   - intros op e t Ha. cbn in Ha. destruct Ha.
 Qed.
 
-Lemma reinit_refuted :
-  exists c trP trC,
+(* the witness of the repaired finding F-C01-hoisted-decl-reinit: both sides write 5 (the device used to write 0);
+   the program stays outside the guard of the simulation theorem (it hoists), so this is a statement about the witness *)
+Lemma reinit_preserved :
+  exists c tr,
     transl reinit = Some c /\ sem_facts reinit_sem demo_aug reinit /\
-    pprog_exec reinit_sem demo_aug 20 0 reinit = Some trP /\
-    cprog_exec reinit_sem demo_aug (info_of reinit) 20 0 false c = Some trC /\
-    trP <> trC /\ guard_ok reinit = false.
+    pprog_exec reinit_sem demo_aug 20 0 reinit = Some tr /\
+    cprog_exec reinit_sem demo_aug (info_of reinit) 20 0 false c = Some tr /\
+    tr = [EvSer (VI 5)] /\ guard_ok reinit = false.
 Proof.
-  eexists. exists [EvSer (VI 5)], [EvSer (VI 0)].
+  eexists. exists [EvSer (VI 5)].
   split; [vm_compute; reflexivity|]. split; [exact reinit_facts|].
   split; [vm_compute; reflexivity|]. split; [vm_compute; reflexivity|].
-  split; [discriminate|vm_compute; reflexivity].
+  split; [reflexivity|vm_compute; reflexivity].
 Qed.
 
 Lemma looplocal_facts : sem_facts looplocal_sem demo_aug looplocal.
@@ -99,18 +101,40 @@ Proof.
   - intros op e t Ha. cbn in Ha. destruct Ha.
 Qed.
 
-Lemma looplocal_refuted :
-  exists c trP trC,
+(* the witness of the repaired finding F-C01-loop-local-reinit: z, first assigned under an `if` inside `while True:`,
+   is a sketch global; both sides write 5 5 (the device used to write 5 0) *)
+Lemma looplocal_preserved :
+  exists c tr,
     transl looplocal = Some c /\ sem_facts looplocal_sem demo_aug looplocal /\
-    pprog_exec looplocal_sem demo_aug 20 2 looplocal = Some trP /\
-    cprog_exec looplocal_sem demo_aug (info_of looplocal) 20 2 true c = Some trC /\
-    trP <> trC /\ guard_ok looplocal = false.
+    pprog_exec looplocal_sem demo_aug 20 2 looplocal = Some tr /\
+    cprog_exec looplocal_sem demo_aug (info_of looplocal) 20 2 true c = Some tr /\
+    tr = [EvSer (VI 5); EvSer (VI 5)] /\ map g_name (c_globals c) = [[119]; [122]] /\ guard_ok looplocal = false.
 Proof.
-  eexists. exists [EvSer (VI 5); EvSer (VI 5)], [EvSer (VI 5); EvSer (VI 0)].
+  eexists. exists [EvSer (VI 5); EvSer (VI 5)].
   split; [vm_compute; reflexivity|]. split; [exact looplocal_facts|].
   split; [vm_compute; reflexivity|]. split; [vm_compute; reflexivity|].
-  split; [discriminate|vm_compute; reflexivity].
+  split; [reflexivity|]. split; vm_compute; reflexivity.
 Qed.
+
+(* the two rewriters drop the hoisted declaration of a name the enclosing block hoists again, keep every other node,
+   and still turn a first assignment into a plain assignment *)
+Lemma hoisted_dropped pn x t l : tmem x pn = true ->
+  map (rewrite_deep pn) (drop_hoisted pn (NDecl x t (XDefault t) false :: l)) = map (rewrite_deep pn) (drop_hoisted pn l) /\
+  map (rewrite_if pn) (drop_hoisted pn (NDecl x t (XDefault t) false :: l)) = map (rewrite_if pn) (drop_hoisted pn l).
+Proof. intro H. unfold drop_hoisted. cbn [filter is_hoisted]. rewrite H. cbn [negb]. split; reflexivity. Qed.
+
+Lemma first_assignment_kept pn x t id l : tmem x pn = true ->
+  map (rewrite_deep pn) (drop_hoisted pn (NDecl x t (XE id) false :: l)) = NAssign x (XE id) :: map (rewrite_deep pn) (drop_hoisted pn l) /\
+  map (rewrite_if pn) (drop_hoisted pn (NDecl x t (XE id) false :: l)) = NAssign x (XE id) :: map (rewrite_if pn) (drop_hoisted pn l).
+Proof. intro H. unfold drop_hoisted. cbn [filter is_hoisted negb map]. cbn [rewrite_deep rewrite_if]. rewrite H. split; reflexivity. Qed.
+
+(* a first assignment at the body level of the main loop: a global with the default initialiser, the assignment in place;
+   no static initialiser even for a name-free constant (the assignment runs on every pass) *)
+Lemma main_loop_first_assignment x e s : is_declared x s = false ->
+  tr_assign true x (rt_ann true e) s =
+  ([NAssign x (XE (a_id e))],
+   add_global {| g_name := x; g_ty := a_ty e; g_init := XDefault (a_ty e) |} (declare x (with_ty x (a_ty e) s))).
+Proof. intro H. unfold tr_assign. cbn [rt_ann a_ty a_id]. rewrite H. reflexivity. Qed.
 
 Lemma demo_local_facts : sem_facts demo_local_sem demo_aug demo_local.
 Proof.
